@@ -19,15 +19,16 @@ RULE = ("one evaluation = one expression tree built with the library's overloade
         "observable and at least one operator; distinct = distinct tree (operators, operand order, leaves)")
 ASSUMPTIONS = ["leaf values come from the library's own built-in observables (C08 decides those)"]
 
-ATOMS9 = [("L", "Z"), ("L", "N"), ("L", "X"), ("S", "0"), ("S", "m1"), ("S", "2"), ("S", "h"), ("S", "f"), ("S", "T")]
-ATOMS5 = [("L", "Z"), ("L", "N"), ("S", "m1"), ("S", "h"), ("S", "f")]
-SC = {"0": 0, "m1": -1, "2": 2, "h": 0.5, "f": np.float64(1.5), "T": True}
+ATOMS9 = [("L", "Z"), ("L", "N"), ("L", "X"), ("S", "0"), ("S", "m1"), ("S", "2"), ("S", "h"), ("S", "f"), ("S", "T"), ("S", "t"), ("S", "big")]
+ATOMS5 = [("L", "Z"), ("L", "N"), ("S", "m1"), ("S", "h"), ("S", "f"), ("S", "t")]
+# 0.1 and 2**24+1 are not representable in single precision: arithmetic must stay in double / Python numbers
+SC = {"0": 0, "m1": -1, "2": 2, "h": 0.5, "f": np.float64(1.5), "T": True, "t": 0.1, "big": 16777217}
 SHARDS = 16
 
 
 def bound(tier):
-    return dict(trees_over_9_atoms="all with <= 2 operator nodes" if tier == "quick" else "all with <= 3 operator nodes",
-                trees_over_5_atoms="all with 3 operator nodes" if tier == "quick" else "(subsumed)",
+    return dict(trees_over_11_atoms="all with <= 2 operator nodes" if tier == "quick" else "all with <= 3 operator nodes",
+                trees_over_6_atoms="all with 3 operator nodes" if tier == "quick" else "(subsumed)",
                 chains="every operator string of length <= %d over 7 one-sided operators, left- and right-nested" % (5 if tier == "quick" else 6),
                 states="complex 2-qubit (all trees); all three types x n in {2,3} x {full space, 1-row batch} for trees with <= 1 operator node",
                 rejected="observable*observable anywhere; operands 'a', None, [1], 1j")
@@ -178,11 +179,20 @@ def check_tree(acc, w, t, stats=False):
         return
     try:
         if len(w.space) > 1 and size(t) <= 2:
-            # the same composite object applied to another batch first (no value may be remembered)
+            # the same composite object applied to another batch first (no value may be remembered) -
+            # a different tensor, and the SAME tensor object advanced in place (what statistics() does)
             v0 = call(got.apply, w.st, torch.flip(w.space, [0]))
             v0 = np.broadcast_to(np.asarray(v0.numpy() if isinstance(v0, torch.Tensor) else v0, dtype=float), want.shape)
             if not close(v0, want[::-1], 1e-12):
                 acc.viol("composite:value-on-second-batch:" + kinds_of(w, t), case, observed=v0, expected=want[::-1])
+                return
+            b = w.space.clone()
+            call(got.apply, w.st, b)
+            b.copy_(torch.flip(w.space, [0]))
+            v1 = call(got.apply, w.st, b)
+            v1 = np.broadcast_to(np.asarray(v1.numpy() if isinstance(v1, torch.Tensor) else v1, dtype=float), want.shape)
+            if not close(v1, want[::-1], 1e-12):
+                acc.viol("composite:value-after-batch-advanced-in-place:" + kinds_of(w, t), case, observed=v1, expected=want[::-1])
                 return
         v = call(got.apply, w.st, w.space)
         v = np.broadcast_to(np.asarray(v.numpy() if isinstance(v, torch.Tensor) else v, dtype=float), want.shape)
@@ -202,9 +212,12 @@ def check_tree(acc, w, t, stats=False):
             n = len(want)
             mean = float(np.mean(want))
             var = float(np.var(want, ddof=1)) if n > 1 else float("nan")
-            ok = (s["num_samples"] == n and close(s["mean"], mean, 1e-12)
-                  and (close(s["variance"], var, 1e-12) if n > 1 else (s["variance"] != s["variance"]))
-                  and (close(s["std_error"], np.sqrt(var / n), 1e-12) if n > 1 else True))
+            # a one-pass variance of values with a large common offset carries rounding ~ eps*|mean|/std
+            vt = max(1e-12, 1e-14 * abs(mean) / max(np.sqrt(var), 1e-300)) if n > 1 and var == var and var > 0 else 1e-12
+            scale = max(1.0, float(np.max(np.abs(want))))
+            ok = (s["num_samples"] == n and close(s["mean"], mean, 1e-12, at=1e-12 * scale)
+                  and (close(s["variance"], var, vt, at=(1e-12 if var > 0 else 1e-14 * max(1.0, abs(mean)))) if n > 1 else (s["variance"] != s["variance"]))
+                  and (close(s["std_error"], np.sqrt(var / n), vt, at=(1e-12 if var > 0 else 1e-7 * max(1.0, abs(mean)) ** 0.5)) if n > 1 else True))
             if not ok:
                 acc.viol("composite:statistics_from_samples", case, observed=s, expected=dict(mean=mean, variance=var, num_samples=n))
         except LibRaised as e:
